@@ -58,11 +58,7 @@ func (f *CryptoFrame) MaxDataLen(maxSize protocol.ByteCount) protocol.ByteCount 
 	if headerLen > maxSize {
 		return 0
 	}
-	maxDataLen := maxSize - headerLen
-	if quicvarint.Len(uint64(maxDataLen)) != 1 {
-		maxDataLen--
-	}
-	return maxDataLen
+	return shrinkForLengthField(maxSize - headerLen)
 }
 
 // MaybeSplitOffFrame splits a frame such that it is not bigger than n bytes.
